@@ -153,8 +153,10 @@ impl Fst {
             .skip(1);
 
         let shape = sfs.shape();
-        let n_i_sub = (shape[0] - 2) as f64;
-        let n_j_sub = (shape[1] - 2) as f64;
+        // In floats, so that an axis of a single entry gives an undefined (NaN) statistic
+        // rather than underflowing the unsigned subtraction
+        let n_i_sub = shape[0] as f64 - 2.0;
+        let n_j_sub = shape[1] as f64 - 2.0;
 
         let (num, denom) = polymorphic_iter
             .map(|(v, fs)| {
